@@ -122,6 +122,16 @@ def replay_mix(case):
             bad.append(("mass_fractions[%s]" % x["txt"], o, [num, case["exp"]["den"]]))
     if abs(tot - 1.0) > 1e-12:
         bad.append(("sum(mass_fractions)", tot, 1))
+    # the same mixture with the substances handed in by the caller (other order, a superset)
+    try:
+        from chempy import Substance
+        from collections import OrderedDict
+        table = OrderedDict((k, Substance.from_formula(k)) for k in ["Og", "CH3OCH3"] + [x["txt"] for x in reversed(ent)])
+        r3 = mass_fractions(stoich, substances=table)
+        if set(r3) != set(stoich) or any(abs(r3[k] - r[k]) > 1e-14 for k in r):
+            bad.append(("mass_fractions(substances=table)", {k: r3.get(k) for k in stoich}, r))
+    except Exception as ex:
+        bad.append(("mass_fractions(substances=table)", type(ex).__name__, "same fractions as without substances="))
     if all(x["coef"] == 1 for x in ent):
         try:
             r2 = mass_fractions(set(stoich))
